@@ -308,6 +308,24 @@ func probes() []hist {
 			ps = append(ps, h2)
 		}
 	}
+	// duration pairs the validate() functions compare: values around the boundary with sub-second parts (equal in
+	// seconds but different in ns, +-1ns, +-999ms)
+	durPairs := []struct {
+		k      int
+		lo, hi string
+		name   string
+	}{{kVesting, "min_duration", "max_duration", "vestingsc"}, {kFaucet, "individual_reset", "global_rest", "faucetsc"}}
+	for _, dp := range durPairs {
+		for _, base := range []string{"2s", "1h"} {
+			h := hist{Contract: dp.k, Probe: "duration-boundary-" + dp.name + "-" + base}
+			for _, hiV := range []string{base + "900ms", base + "999ms", base + "1ns", base, base + "1000ms", base + "1001ms"} {
+				h.Ops = append(h.Ops, upd(entry{dp.lo, base}, entry{dp.hi, hiV}))
+			}
+			// the lower one just below / above the upper one
+			h.Ops = append(h.Ops, upd(entry{dp.hi, "3h"}, entry{dp.lo, "2h59m59s999ms"}), upd(entry{dp.hi, "3h"}, entry{dp.lo, "3h0m0s1ns"}), upd(entry{dp.lo, "999ms"}), upd(entry{dp.lo, "1s"}))
+			ps = append(ps, h)
+		}
+	}
 	// aliases: two distinct request keys that name one setting
 	ps = append(ps, hist{Contract: kStorage, Probe: "alias-storagesc-blank", Ops: []op{
 		join(entry{" max_delegates", "7"}, fill(kStorage, 6), entry{"max_delegates", "9"}), {Kind: "commit", Caller: otherClient}}})
